@@ -88,7 +88,11 @@ EOS_STAGES = {"lf": 1, "lf4": 3, "lf6": 9, "lf8": 17, "lf4_2": 2, "lf8_6_4": 7, 
 JANUS_STAGES = {2: 1, 4: 5, 6: 9, 8: 15, 10: 33}
 PCAP = {"default": 6, "ias15fixed": 10}
 KJ = 4.0     # JANUS: truncation to the integer grid is biased -> the grid error grows linearly with stages*steps
-             # (measured 0.23 * (scale_pos/L + scale_vel/V) per stage and step)
+             # (measured 0.23 * (scale_pos/L + scale_vel/V) per stage and step with equal scales).  With independent
+             # scales each drift truncates positions to the scale_pos grid and each kick velocities to the scale_vel
+             # grid, so the two relative contributions add separately: the same two-term model is kept (the velocity
+             # term also feeds the positions, which the measured coefficient already contains; KJ leaves a factor
+             # >= 8 for the case that one term alone carries it).
 
 
 def cfg_get(cfg, path, default=None):
@@ -248,7 +252,10 @@ def floor_for(sysd, cfg, nsteps):
     f = max(FLOOR, KR * EPS * hierarchy(sysd) * math.sqrt(work(cfg) * nsteps))
     if cfg["family"] == "janus":
         L, V = size_speed(sysd)
-        f += KJ * (cfg_get(cfg, "ri_janus.scale_pos") / L + cfg_get(cfg, "ri_janus.scale_vel") / V) * work(cfg) * nsteps
+        # a position grid error matters relative to the smallest orbit (L/H), a velocity grid error relative to the
+        # largest speed (measured with scale_pos=1e-14, scale_vel=1e-16: up to 0.27 * scale_pos*H/L per stage and step)
+        f += KJ * (cfg_get(cfg, "ri_janus.scale_pos") * hierarchy(sysd) / L + cfg_get(cfg, "ri_janus.scale_vel") / V) \
+            * work(cfg) * nsteps
     return f
 
 
@@ -333,7 +340,7 @@ def check_rate(Es, floors, p, ctx, what, details):
     R-b  safety net for schemes that leave the window after one level: for every level j in the window and every
          finer level k:  E_k <= floor_k + A * E_j * 2^-(p*(k-j)),  A = 64 (4x the deepest dip observed).
     R-c  convergence to the right answer: E_last <= 1e-2 (inside or below the window, where R-a sees a constant
-         error as slope 0) and E_last <= E_first + floor."""
+         error as slope 0) or, above the window, E_last <= E_first*2^-(3(p-1)); and E_last <= E_first + floor."""
     n = len(Es)
     usable = [k for k in range(n) if 4.0 * floors[k] <= Es[k] <= CEIL]
     slopes = [math.log2(Es[k] / Es[k + 1]) for k in usable if (k + 1) in usable]
@@ -366,7 +373,10 @@ def check_rate(Es, floors, p, ctx, what, details):
                                 % (what, p, 2 ** j, a, 2 ** k, b, math.log2(a / b) / (k - j) if b > 0 else 99.0,
                                    bound, A_DIP, p * (k - j)), errors=Es, floors=floors, order=p, **details)
     last, first = Es[-1], Es[0]
-    if not last <= CEIL:
+    # a system that amplifies errors strongly (comparable masses, 4 periods) can leave a low order scheme above the
+    # window at the finest level; it must then at least have shrunk at order p-1 on average from the coarsest level
+    # (a scheme stuck at a wrong trajectory has E_last = E_first)
+    if not last <= max(CEIL, first * 2.0 ** (-(n - 1) * (p - 1.0))):
         raise Violation("%s: does not converge to the true solution: error %.3e at the finest step" % (what, last),
                         errors=Es, order=p, **details)
     if not last <= first + floors[-1]:
@@ -425,9 +435,12 @@ def ias15fixed_cfg(m):
             "set": [["ri_ias15.epsilon", 0.0], ["ri_ias15.adaptive_mode", m]]}
 
 
-def janus_cfg(o):
+JANUS_SCALES = [1e-16, 1e-15, 1e-14]     # generated systems have |x| < 50, |v| < 20: |x|/scale, |v|/scale < 5e17 < 2^62
+
+
+def janus_cfg(o, sp=1e-16, sv=1e-16):
     return {"integrator": "janus", "family": "janus",
-            "set": [["ri_janus.order", o], ["ri_janus.scale_pos", 1e-16], ["ri_janus.scale_vel", 1e-16]]}
+            "set": [["ri_janus.order", o], ["ri_janus.scale_pos", sp], ["ri_janus.scale_vel", sv]]}
 
 
 def mercurius_cfg(L, sm, rc):
@@ -457,7 +470,8 @@ def full_lattice():
                 out.append(eos_cfg(a, b, n, sm))
     out.append({"integrator": "leapfrog", "set": [], "family": "leapfrog"})
     for o in S.JANUS_ORDERS:
-        out.append(janus_cfg(o))
+        for sp, sv in ((1e-16, 1e-16), (1e-16, 1e-14), (1e-14, 1e-16), (1e-15, 1e-14)):
+            out.append(janus_cfg(o, sp, sv))
     for L in S.MERCURIUS_L:
         for sm in (0, 1):
             out.append(mercurius_cfg(L, sm, 3.0))
@@ -485,7 +499,8 @@ def fam_cfg(fam):
     if fam == "leapfrog":
         return st.just({"integrator": "leapfrog", "set": [], "family": "leapfrog"})
     if fam == "janus":
-        return st.builds(janus_cfg, st.sampled_from(S.JANUS_ORDERS))
+        return st.builds(janus_cfg, st.sampled_from(S.JANUS_ORDERS), st.sampled_from(JANUS_SCALES),
+                         st.sampled_from(JANUS_SCALES))
     if fam == "mercurius":
         return st.builds(mercurius_cfg, st.sampled_from(S.MERCURIUS_L), st.sampled_from([0, 1]), st.sampled_from([3.0, 2.0, 4.0]))
     if fam == "trace":
